@@ -36,6 +36,17 @@ def b64ok (s : Bytes) : Bool :=
 
 def trimEq (s : Bytes) : Bytes := (s.reverse.dropWhile (· == 61)).reverse
 
+/-- does a string of decimal syntax have a finite float64 reading? `strconv.ParseFloat` fails only
+when the magnitude rounds to infinity, i.e. at or beyond 1.7976931348623158e308 (the halfway point
+between the largest float64 and 2^1024; a value that shares these 17 digits counts as beyond it).
+Tiny values underflow to 0 without error. -/
+def floatFiniteDec (s : Bytes) : Bool :=
+  let body := match s with | 43 :: r => r | 45 :: r => r | r => r
+  let intPart := (body.takeWhile (· != 46)).dropWhile (· == 48)
+  if intPart.length ≤ 308 then true
+  else if intPart.length ≥ 310 then false
+  else decide (intPart.take 17 < [49, 55, 57, 55, 54, 57, 51, 49, 51, 52, 56, 54, 50, 51, 49, 53, 56])
+
 /-- the cascade of `ParseQuery`. `floatFinite` stands for `strconv.ParseFloat` succeeding on a
 string of decimal syntax (it fails only for magnitudes beyond float64) -/
 def classify (floatFinite : Bytes → Bool) (s : Bytes) : QVal :=
